@@ -234,7 +234,7 @@ func init() {
 	engine.Register(&engine.Prop{
 		ID: "C06", Level: "exploration", World: "fleet",
 		QuickRuns: 10000, ThoroughRuns: 1000000,
-		Generate: GenFleet(&fleetProfile{prop: "C06", stores: allKinds, roles: []string{"sketch", "sketch", "exact"}, minNodes: 1, maxNodes: 4, shareMap: true,
+		Generate: GenFleet(&fleetProfile{prop: "C06", stores: allKinds, roles: []string{"sketch", "sketch", "exact"}, minNodes: 1, maxNodes: 4, shareMap: true, ultrafine: true,
 			weights: []string{"unit", "int", "frac", "fine"}, valueSigns: []string{"pos", "neg", "mixed", "zeros"},
 			ops:   map[string]int{"add": 30, "addw": 15, "burst": 6, "merge": 3, "copy": 2, "clear": 4, "reweight": 2, "send": 25, "query": 2},
 			forms: []string{"bin", "bin", "binomit"}, modes: []string{"merge", "fresh", "reuse"}, queryEvery: 0, maxOps: 120, concat: true}),
@@ -247,7 +247,7 @@ func init() {
 	engine.Register(&engine.Prop{
 		ID: "C07", Level: "exploration", World: "fleet",
 		QuickRuns: 10000, ThoroughRuns: 1000000,
-		Generate: GenFleet(&fleetProfile{prop: "C07", stores: allKinds, roles: []string{"sketch", "sketch", "exact"}, minNodes: 1, maxNodes: 4, shareMap: true,
+		Generate: GenFleet(&fleetProfile{prop: "C07", stores: allKinds, roles: []string{"sketch", "sketch", "exact"}, minNodes: 1, maxNodes: 4, shareMap: true, ultrafine: true,
 			weights: []string{"unit", "int", "frac", "fine"}, valueSigns: []string{"pos", "neg", "mixed", "zeros"},
 			ops:   map[string]int{"add": 30, "addw": 15, "burst": 6, "merge": 3, "clear": 3, "send": 25},
 			forms: []string{"bin", "bin", "binomit"}, modes: []string{"merge", "fresh", "reuse"}, queryEvery: 0, maxOps: 80, extra: foreignNode}),
@@ -412,7 +412,7 @@ func init() {
 	engine.Register(&engine.Prop{
 		ID: "C09", Level: "exploration", World: "fleet",
 		QuickRuns: 10000, ThoroughRuns: 1000000,
-		Generate: GenFleet(&fleetProfile{prop: "C09", stores: allKinds, roles: []string{"sketch"}, minNodes: 1, maxNodes: 4, shareMap: true,
+		Generate: GenFleet(&fleetProfile{prop: "C09", stores: allKinds, roles: []string{"sketch"}, minNodes: 1, maxNodes: 4, shareMap: true, ultrafine: true,
 			weights: []string{"unit", "int", "frac", "arb", "arb"}, valueSigns: []string{"pos", "neg", "mixed", "zeros"},
 			ops:   map[string]int{"add": 30, "addw": 20, "burst": 6, "merge": 3, "copy": 2, "clear": 4, "reweight": 2, "send": 25},
 			forms: []string{"pb", "pbstream"}, modes: []string{"fresh"}, queryEvery: 0, maxOps: 120, extra: handBuilder}),
